@@ -171,6 +171,7 @@ func (g *gen) addNode(kind string) int {
 	} else {
 		n.Salt = 1 + g.r.Intn(5000)
 		n.Fail = g.r.Chance(1, 3)
+		n.Pan = g.r.Chance(1, 4)
 	}
 	g.d.Nodes = append(g.d.Nodes, n)
 	return len(g.d.Nodes) - 1
@@ -201,7 +202,7 @@ func genHist(r *hx.Rng, thorough bool) histDesc {
 		p := g.addParam()
 		prev := p
 		for len(g.d.Nodes) < total {
-			n := g.addNode(hx.Pick(r, []string{"chain", "chain", "bin", "mix", "arr"}))
+			n := g.addNode(hx.Pick(r, []string{"chain", "chain", "bin", "mix", "arr", "loose"}))
 			src := prev
 			wire = append(wire, func() { g.connect(n, src, -1) })
 			prev = n
@@ -257,7 +258,7 @@ func genHist(r *hx.Rng, thorough bool) histDesc {
 			g.addParam()
 		}
 		for len(g.d.Nodes) < total {
-			g.addNode(hx.Pick(r, []string{"quad", "wide", "bin", "mix", "multi", "pref"}))
+			g.addNode(hx.Pick(r, []string{"quad", "wide", "bin", "mix", "multi", "pref", "loose"}))
 		}
 		wire = append(wire, func() {
 			ps := g.params()
@@ -505,6 +506,51 @@ func fixedCases() []histDesc {
 		for k := 0; k < 200; k++ {
 			d.Ops = append(d.Ops, opDesc{Op: "read", N: 7})
 		}
+		out = append(out, d)
+	}
+	// a processor that PANICS in a non-terminal position, shared by several consumers.  nodes: 0 P, 1 Q,
+	// 2 B = chain(P) panics for some P, 3 C = chain(B), 4 D = bin(B, Q), 5 E = chain(B), 6 Y = chain(Q),
+	// 7 F = bin(B: Y, A: B) — F reads Y (completes, is committed) before B panics.
+	{
+		const saltB = 17
+		hashB := func(v int) int { return (((saltB*37+11+1)%hmod)*31 + v) % hmod }
+		var bad, good []int
+		for v := 1; len(bad) < 3 || len(good) < 4; v++ {
+			if hashB(v)%5 == 0 {
+				bad = append(bad, v)
+			} else {
+				good = append(good, v)
+			}
+		}
+		d := histDesc{Shape: "fixed-panicking-upstream", Nodes: []nodeDesc{{Kind: "pval", Init: good[0]}, {Kind: "vnode", Init: 50},
+			{Kind: "chain", Salt: saltB, Pan: true}, {Kind: "chain", Salt: 23}, {Kind: "bin", Salt: 29}, {Kind: "chain", Salt: 31},
+			{Kind: "chain", Salt: 37}, {Kind: "bin", Salt: 41}}}
+		d.Ops = []opDesc{{Op: "connect", N: 2, Port: "In", Src: 0}, {Op: "connect", N: 3, Port: "In", Src: 2},
+			{Op: "connect", N: 4, Port: "B", Src: 2}, {Op: "connect", N: 4, Port: "A", Src: 1}, {Op: "connect", N: 5, Port: "In", Src: 2},
+			{Op: "connect", N: 6, Port: "In", Src: 1}, {Op: "connect", N: 7, Port: "B", Src: 6}, {Op: "connect", N: 7, Port: "A", Src: 2},
+			{Op: "read", N: 3}, {Op: "read", N: 4}, {Op: "read", N: 5}, {Op: "read", N: 7},
+			{Op: "set", N: 0, V: bad[0]}, {Op: "read", N: 3}, {Op: "read", N: 3}, {Op: "read", N: 5}, // panics, panics again, other consumer panics
+			{Op: "set", N: 1, V: 51}, {Op: "read", N: 4}, {Op: "read", N: 7}, {Op: "read", N: 7}, {Op: "read", N: 6}, {Op: "read", N: 2},
+			{Op: "set", N: 0, V: good[1]}, {Op: "read", N: 3}, {Op: "read", N: 4}, {Op: "read", N: 5}, {Op: "read", N: 7}, {Op: "read", N: 7},
+			{Op: "set", N: 0, V: bad[1]}, {Op: "set", N: 1, V: 52}, {Op: "read", N: 7}, {Op: "read", N: 4}, {Op: "read", N: 6},
+			{Op: "set", N: 0, V: good[2]}, {Op: "read", N: 7}, {Op: "read", N: 4}, {Op: "read", N: 3}, {Op: "read", N: 5},
+			{Op: "set", N: 0, V: bad[2]}, {Op: "read", N: 2}, {Op: "set", N: 0, V: good[3]}, {Op: "read", N: 5}, {Op: "read", N: 5}}
+		out = append(out, d)
+	}
+	// input fields declared with looser interface types (one-method interface, any, embedding interface)
+	// holding node outputs next to a normally declared one: every one of them is a dependency
+	{
+		d := histDesc{Shape: "fixed-loose-fields", Nodes: []nodeDesc{{Kind: "vnode", Init: 1}, {Kind: "pval", Init: 2}, {Kind: "vnode", Init: 3}, {Kind: "pval", Init: 4},
+			{Kind: "loose", Salt: 43}, {Kind: "chain", Salt: 47}, {Kind: "chain", Salt: 53}}}
+		d.Ops = []opDesc{{Op: "connect", N: 4, Port: "One", Src: 0}, {Op: "connect", N: 4, Port: "N", Src: 1}, {Op: "connect", N: 4, Port: "Any", Src: 2},
+			{Op: "connect", N: 4, Port: "Emb", Src: 3}, {Op: "connect", N: 5, Port: "In", Src: 4}, {Op: "connect", N: 6, Port: "In", Src: 1},
+			{Op: "read", N: 5}, {Op: "read", N: 5},
+			{Op: "set", N: 0, V: 11}, {Op: "read", N: 5}, {Op: "read", N: 5}, {Op: "set", N: 2, V: 13}, {Op: "read", N: 5}, {Op: "read", N: 4},
+			{Op: "set", N: 3, V: 14}, {Op: "read", N: 4}, {Op: "read", N: 5}, {Op: "set", N: 1, V: 12}, {Op: "read", N: 5},
+			{Op: "disconnect", N: 4, Port: "Any"}, {Op: "read", N: 5}, {Op: "set", N: 2, V: 23}, {Op: "read", N: 5},
+			{Op: "connect", N: 4, Port: "Any", Src: 6}, {Op: "read", N: 5}, {Op: "set", N: 1, V: 22}, {Op: "read", N: 5}, {Op: "read", N: 5},
+			{Op: "disconnect", N: 4, Port: "One"}, {Op: "connect", N: 4, Port: "One", Src: 6}, {Op: "set", N: 0, V: 21}, {Op: "read", N: 5},
+			{Op: "set", N: 1, V: 32}, {Op: "read", N: 4}, {Op: "read", N: 5}, {Op: "read", N: 5}}
 		out = append(out, d)
 	}
 	return out
